@@ -150,6 +150,16 @@ CHECKS["C12"] = {
     "design_ref": "§7 C12",
 }
 
+CHECKS["C14"] = {
+    "category": "model_checking",
+    "technique": "TLA+ Mux.tla (reusable-stream protocol) checked by TLC; per-stream records of two real Muxes over a fragmenting transport evaluated by TLC (TraceMux.tla) + flood scenario",
+    "text": "Design: isolation, local end-of-stream and matching incarnations for every interleaving of the OPEN/DATA/CLOSE protocol on one stream id. Code: "
+            "concurrent transient streams with self-identifying payloads (some abandoned half-read) must pair one-to-one within a capability, complete and "
+            "intact both ways; open streams per capability <= min of the announced limits; bytes pulled from the transport under a flood stay within the buffers.",
+    "note": "Thread schedules are perturbed, not controlled; the adversarial peer is a non-cooperating real Mux (protocol-violating frames belong to C10); limits 1..3, 3 capabilities.",
+    "design_ref": "§7 C14",
+}
+
 NOT_YET = "check not built yet (construction in progress; see DESIGN.md §11 build order)"
 NA_REASONS = {}
 
